@@ -15,7 +15,7 @@ def get_scenario(pid):
         from sim.ridge import RidgeScenario
         return RidgeScenario()
     if pid == "C09":
-        from sim.purity import PurityScenario
+        from sim.purgen import PurityScenario
         return PurityScenario()
 
 if __name__ == "__main__":
